@@ -24,7 +24,13 @@ void log_message(struct log_type *type, enum log_severity sev, const char *forma
 }
 struct log_type *log_type_register(const char *name, const char *t) { (void)name; (void)t; return NULL; }
 static int jmp_code;
-void longjmp(jmp_buf env, int val) { (void)env; jmp_code = val; __CPROVER_assume(0); }
+static int expect_no_error_flag(void);
+void longjmp(jmp_buf env, int val)
+{
+    (void)env; jmp_code = val;
+    V_ASSERT(!expect_no_error_flag(), "C16: a file written in the documented syntax is rejected (syntax error raised)");
+    __CPROVER_assume(0);
+}
 
 static unsigned hook_calls;
 static struct conf_node_base *hook_last;
@@ -173,7 +179,21 @@ void h_string_list_value(void)
 int in_setjmp_ret; int in_entries;
 struct { char s[4]; } in_file;
 static unsigned replace_calls, entry_calls, entries_before_replace;
-int _setjmp(struct __jmp_buf_tag *env) { (void)env; return in_setjmp_ret; }
+int _setjmp(struct __jmp_buf_tag *env)
+{
+    if (in_setjmp_ret != 0) {
+        /* return through longjmp: the parser state is whatever the parse phase left behind - every
+         * scalar field of it (line number, errno, any flag a refactoring adds) is arbitrary; the
+         * pointer fields are restored to a sane scratch tree (empty) and buffer */
+        struct conf_parse *p = (struct conf_parse *)((char *)env - offsetof(struct conf_parse, env));
+        __CPROVER_havoc_object(p);
+        p->root.base.name = ""; p->root.base.type = CONF_OBJECT; p->root.base.parent = NULL; p->root.base.hook = NULL;
+        p->root.contents.compare = conf_object_cmp; p->root.contents.cleanup = conf_object_cleanup;
+        p->root.contents.root = NULL; p->root.contents.count = 0;
+        p->data = NULL; p->curr = NULL; p->line_start = NULL; p->c_function = "f";
+    }
+    return in_setjmp_ret;
+}
 char *model_conf_read_file(struct conf_parse *parse, const char *filename)
 {
     char *d = malloc(4); unsigned i;
@@ -200,6 +220,11 @@ void h_conf_read(void)
 {
     int res; unsigned n0;
     V_IN(in_setjmp_ret); V_IN(in_file);
+    /* this job runs with --nondet-static: whatever file-scope state the parse phase may have left
+     * behind before a longjmp (including state a later refactoring adds) is arbitrary here.  Everything
+     * the harness itself relies on is therefore set explicitly. */
+    hook_calls = 0; hook_last = NULL; replace_calls = 0; entry_calls = 0; entries_before_replace = 0; warnings = 0; errors = 0; jmp_code = 0;
+    memset(&conf_root, 0, sizeof(conf_root));
     conf_root.base.name = ""; conf_root.base.type = CONF_OBJECT; conf_root.base.specified = 1;
     conf_root.base.hook = the_hook;
     conf_root.contents.compare = conf_object_cmp; conf_root.contents.cleanup = conf_object_cleanup;
@@ -317,5 +342,87 @@ void h_replace_object_inplace(void)
     conf_replace_value(&live.base, &scratch.base);                   /* REAL */
     V_ASSERT(t->value != NULL && t->value[0] == in_newval.v[0], "C15: the setting equals the value given in the new file");
     V_ASSERT((hook_calls >= 1) == (in_newval.v[0] != 'a'), "C17: the section's hook runs when a descendant's effective value changed in place (and only then)");
+    V_CANARY();
+}
+
+/* ============ C16: the entry parser on documented renderings (concrete templates) ===========
+ * Each template is a literal file written in the grammar of doc/iauthd-c.conf.example:1-14; the
+ * REAL conf_parse_entry is run over it exactly as conf_read does.  A longjmp (= "syntax error")
+ * on such a file is a violation; afterwards the scratch tree must be the tree that was written.
+ * One job per template (-DTPL=k); inputs are concrete, so this is executed, not abstracted. */
+#ifndef TPL
+#define TPL 0
+#endif
+static int expect_no_error;
+static int expect_no_error_flag(void) { return expect_no_error; }
+static struct conf_node_base *nth(struct conf_node_object *o, unsigned k)
+{
+    struct set_node *n = o->contents.root; unsigned i;
+    for (i = 0; i < k && n; i++) n = n->next;
+    return n ? set_node_data(n) : NULL;
+}
+static int str_eq(const char *a, const char *b) { unsigned i; if (!a) return 0; for (i = 0; i < 16; i++) { if (a[i] != b[i]) return 0; if (!b[i]) return 1; } return 0; }
+#define AS_STR(b) ENCLOSING_STRUCT(b, struct conf_node_string, base)
+#define AS_LIST(b) ENCLOSING_STRUCT(b, struct conf_node_string_list, base)
+#define AS_OBJ(b) ENCLOSING_STRUCT(b, struct conf_node_object, base)
+
+void h_parse_entry_template(void)
+{
+    static struct conf_parse parse;
+    struct conf_node_base *n0, *c0;
+#if TPL == 0
+    static char text[] = "a b;";
+#elif TPL == 1
+    static char text[] = "a b\n";
+#elif TPL == 2
+    static char text[] = "o { a b; }\n";
+#elif TPL == 3
+    static char text[] = "o { a b }\n";
+#elif TPL == 4
+    static char text[] = "o { a b}\n";
+#elif TPL == 5
+    static char text[] = "l (x, y);\n";
+#elif TPL == 6
+    static char text[] = "o {\n l x, y\n}\n";
+#elif TPL == 7
+    static char text[] = "l x, y;\n";
+#elif TPL == 8
+    static char text[] = "a b; a c;\n";
+#elif TPL == 9
+    static char text[] = "a /* c */ \"b\"; // x\n";
+#elif TPL == 10
+    static char text[] = "l x, y\n\n";
+#else
+    static char text[] = "o { a b; }\no { c d; }\n";
+#endif
+    ctype_init();
+    memset(&parse, 0, sizeof(parse));
+    parse.root.base.name = ""; parse.root.base.type = CONF_OBJECT;
+    parse.root.contents.compare = conf_object_cmp; parse.root.contents.cleanup = conf_object_cleanup;
+    parse.data = parse.curr = text; parse.line_num = 1;
+    expect_no_error = 1;
+    while (*parse.curr)
+        conf_parse_entry(&parse, &parse.root);                         /* REAL */
+    n0 = nth(&parse.root, 0);
+    V_ASSERT(n0 != NULL, "C16: the entry is read");
+#if TPL == 0 || TPL == 1 || TPL == 9
+    V_ASSERT(n0->type == CONF_STRING && str_eq(n0->name, "a") && str_eq(AS_STR(n0)->value, "b") && parse.root.contents.count == 1, "C16: 'name value' terminated by ';' or newline is that string setting");
+#elif TPL == 2 || TPL == 3 || TPL == 4
+    V_ASSERT(n0->type == CONF_OBJECT && str_eq(n0->name, "o"), "C16: a braced block is an object");
+    c0 = nth(AS_OBJ(n0), 0);
+    V_ASSERT(c0 != NULL && c0->type == CONF_STRING && str_eq(c0->name, "a") && str_eq(AS_STR(c0)->value, "b") && AS_OBJ(n0)->contents.count == 1,
+             "C16: the object contains the string setting written in it (the closing brace may follow the value directly)");
+#elif TPL == 5 || TPL == 7 || TPL == 10
+    V_ASSERT(n0->type == CONF_STRING_LIST && str_eq(n0->name, "l") && AS_LIST(n0)->value.used == 2 && str_eq(AS_LIST(n0)->value.vec[0], "x") && str_eq(AS_LIST(n0)->value.vec[1], "y"),
+             "C16: a parenthesised or comma list is read with its items in order");
+#elif TPL == 6
+    V_ASSERT(n0->type == CONF_OBJECT, "C16: a braced block is an object");
+    c0 = nth(AS_OBJ(n0), 0);
+    V_ASSERT(c0 != NULL && c0->type == CONF_STRING_LIST && AS_LIST(c0)->value.used == 2 && str_eq(AS_LIST(c0)->value.vec[1], "y"), "C16: a comma list ended by a newline inside an object");
+#elif TPL == 8
+    V_ASSERT(n0->type == CONF_STRING && str_eq(AS_STR(n0)->value, "c") && parse.root.contents.count == 1, "C16: a later duplicate overrides the earlier one");
+#else
+    V_ASSERT(n0->type == CONF_OBJECT && parse.root.contents.count == 1 && AS_OBJ(n0)->contents.count == 2, "C16: repeated objects merge");
+#endif
     V_CANARY();
 }
